@@ -147,7 +147,7 @@ pub fn run(ctx: &Ctx) {
     for (ni, hs) in names.iter().enumerate() {
         for dh in [DhKind::X25519, DhKind::P256] {
             let per_dh: Vec<_> = suites.iter().filter(|s| s.dh == dh).collect();
-            let picks: Vec<usize> = if ctx.tier == Tier::Thorough { (0..12).collect() } else { vec![(ni * 5) % 12] };
+            let picks: Vec<usize> = if ctx.tier == Tier::Thorough { (0..12).collect() } else { vec![(ni * 5) % 12, (ni * 5 + 4) % 12, (ni * 5 + 8) % 12] };
             for si in picks {
                 let spec = SessionSpec::simple(hs.clone(), *per_dh[si], mix(ctx.seed, (ni * 12 + si) as u64));
                 for stateless in [false, true] {
